@@ -565,6 +565,14 @@ func checkMain(args []string) int {
 	for _, l := range knownLines {
 		fmt.Println(l)
 	}
+	if len(inconclusive) > 0 {
+		// the witnesses of the known findings could not be replayed at all (the native build failed):
+		// which findings still hold is unknown, so nothing that follows could be classified
+		for _, l := range inconclusive {
+			fmt.Println("INCONCLUSIVE:", l)
+		}
+		return 2
+	}
 
 	// 2. explore every harness of this property
 	var results []*harnessResult
